@@ -101,7 +101,7 @@ FORMS = {
 CLASSES = ["external", "builtin", "function", "brace", "subshell", "loop"]
 BY_CLASS = {c: [n for n, f in FORMS.items() if f[1] == c] for c in CLASSES}
 SLOW = {"loop", "floop", "evalloop", "loopb", "gread"}   # byte-at-a-time readers
-READERS = SLOW | {"read"}   # forms built on the `read` builtin (decodes bytes as Latin-1: ASCII payloads only)
+READERS = SLOW | {"read"}   # forms built on the `read` builtin
 
 
 def forms_for(cls, pos, k):
@@ -301,7 +301,7 @@ def gen_pipe_cases(ctx, cap):
         while not ok_size(n, w):
             n += 1
         seed = (n + len(cases)) % 23
-        if not any(s_ in READERS for s_ in stages) and len(cases) % 5 in (1, 2, 3) and n > 1:
+        if len(cases) % 5 in (1, 2, 3) and n > 1:      # (also through `read`-based stages since fix 71abdb4)
             # multi-byte UTF-8 payload (2-, 3-, 4-byte characters at every phase)
             seed += 100 * (2 + (len(cases) // 5) % 3)
         cases.append({"stages": list(stages), "n": n, "w": w, "seed": seed, "kind": kind})
